@@ -126,6 +126,83 @@ def user_case(ctx, k, definition, gen):
     return term, impl, dat, names
 
 
+def history_cases(ctx, definition, gen, n):
+    """Load HISTORIES in one process: the same parameter-file PATH is loaded again with another .names file,
+    then with other content, then with the first pair again (what a notebook / service / `run_pdb2pqr` called
+    several times does).  Two oracles: (a) each load's dump is a model case like any other (appended to the
+    correspondence batch); (b) model-independent: the dump of a load inside the history must equal the dump of
+    the same two texts written to paths that were never loaded before (the selected force field is a function of
+    the selected files' content, not of what was loaded earlier)."""
+    from common import GenError
+
+    d = ctx.scratch_dir()
+    terms, impls, raw = [], [], []
+
+    def load(dat_path, names_path):
+        try:
+            dump, nres = gen.impl_dump(None, definition, str(dat_path), str(names_path))
+            return "ok", dump, nres
+        except KeyError:
+            return "keyerror", [], 0
+        except Exception as e:  # outside the model
+            return f"impl-{type(e).__name__}", None, 0
+
+    def term_of(dat_path, names_path, dump, nres):
+        rows, rules = gen.tables(None, definition, dat_path, names_path)
+        ids = {}
+        L = lambda nm: ids.setdefault(nm, len(ids) + 1)  # noqa: E731
+        return f"check_user\n {gen.coq_rows(rows, L)}\n {gen.coq_rules(rules, L)}\n {gen.coq_dump(dump, L)}\n {nres}%nat"
+
+    for k in range(n):
+        names_pool = list(definition.map.keys())
+        datA, namesA = gen_user_ff(ctx.rng, names_pool)
+        datB, namesB = gen_user_ff(ctx.rng, names_pool)
+        if ctx.rng.random() < 0.5:  # a names file that differs from A only by dropped sections / aliases
+            secs = namesA.split(" <residue>")
+            if len(secs) > 2:
+                drop = ctx.rng.randrange(1, len(secs))
+                cut = secs[:drop] + secs[drop + 1 :]
+                namesB = " <residue>".join(cut)
+                if "</patches>" not in namesB:
+                    namesB += "</patches>\n"
+        P = d / f"h{k}.DAT"
+        steps = [("A", datA, "a", namesA), ("A", datA, "b", namesB), ("B", datB, "b", namesB), ("A", datA, "a", namesA)]
+        hist = []
+        for j, (dl, dat, nl, nm) in enumerate(steps):
+            P.write_text(dat)
+            N = d / f"h{k}{nl}.names"
+            N.write_text(nm)
+            impl, dump, nres = load(P, N)
+            hist.append(f"{dl}+{nl}")
+            ctx.count(f"history:step{j}:{impl}")
+            if dump is None:
+                continue
+            # (b) same texts, fresh paths
+            FP, FN = d / f"h{k}_fresh{j}.DAT", d / f"h{k}_fresh{j}.names"
+            FP.write_text(dat)
+            FN.write_text(nm)
+            fimpl, fdump, fnres = load(FP, FN)
+            ctx.evaluated(("history", core.sha(dat + nm), j), j > 0)
+            if (fimpl, fdump, fnres) != (impl, dump, nres):
+                ds, fs = set(dump or []), set(fdump or [])
+                ex = sorted(ds ^ fs)[:3]
+                ctx.fail(
+                    {"site": "forcefield.Forcefield", "condition": "load-depends-on-earlier-loads-in-the-process"},
+                    f"user force field history {hist} on one parameter-file path: load {j} gives {impl}/{len(dump or [])} entries, the same texts on never-loaded paths give {fimpl}/{len(fdump or [])}; differing entries e.g. {ex}",
+                    {"history": [{"dat": s[1], "names": s[3]} for s in steps[: j + 1]], "step": j, "dat": dat, "names": nm},
+                )
+            # (a) model case
+            try:
+                terms.append(term_of(P, N, dump, nres))
+                impls.append(impl)
+                raw.append((dat, nm))
+            except GenError:
+                ctx.count("history:generator-refused")
+            for f in (FP, FN):
+                f.unlink()
+    return terms, impls, raw
+
+
 # ---- end-to-end -----------------------------------------------------------------
 
 E2E_QUICK = [("1AJJ.pdb", []), ("1A1P.pdb", []), ("cterm_hid.pdb", []), ("5vav_cyclic_peptide.pdb", [])]
@@ -359,6 +436,11 @@ def run(ctx):
         terms.append(term)
         impls.append(impl)
         raw.append((dat, nm))
+    # load histories on one path (same DAT path with another .names file, then other content, then the first pair again)
+    ht, hi, hr = history_cases(ctx, definition, gen, 60 if ctx.thorough else 12)
+    terms += ht
+    impls += hi
+    raw += hr
     header = "From Coq Require Import ZArith List PArith String.\nFrom PV Require Import Model.ForceField Model.ForceFieldExec.\nImport ListNotations.\n"
     corr_broken = False
     try:
@@ -504,6 +586,35 @@ def replay(ctx, data):
     if r is not None:
         return r
     case = data["case"]
+    if "history" in case:  # re-play the load history on one path, compare the last load with never-loaded paths
+        sys.path.insert(0, str(core.VERIF / "gen"))
+        import ff_tables as gen
+        from common import load_definition
+
+        definition = load_definition()
+        d = ctx.scratch_dir()
+
+        def load(dp, np_):
+            try:
+                return gen.impl_dump(None, definition, str(dp), str(np_))
+            except Exception as e:  # noqa
+                return type(e).__name__
+
+        P = d / "h.DAT"
+        last = None
+        for j, st in enumerate(case["history"]):
+            P.write_text(st["dat"])
+            N = d / f"h{core.sha(st['names'])[:8]}.names"
+            N.write_text(st["names"])
+            last = load(P, N)
+        FP, FN = d / "fresh.DAT", d / "fresh.names"
+        FP.write_text(case["dat"])
+        FN.write_text(case["names"])
+        fresh = load(FP, FN)
+        bad = last != fresh
+        print("replay: history of", len(case["history"]), "loads on one path; last load", "DIFFERS from" if bad else "equals", "the same texts on never-loaded paths ->", "FAILS" if bad else "passes")
+        ctx.cleanup()
+        return 1 if bad else 0
     if "dat" in case:
         print("replay: user force field case; re-run ./check C01 with the same seed to reproduce")
         return 1
